@@ -1,4 +1,5 @@
 import Noodles.Props.C08Tok
+import Noodles.Props.C08Aac
 import Noodles.Cram.Num
 import Noodles.Cram.NumProof
 import Noodles.Cram.Rans4x8
